@@ -1416,7 +1416,8 @@ def run(a):
         if i >= len(em.used_funcs) and gi >= len(em.used_globals):
             # closure complete: pull in the dynamic initialisers of the globals it uses (fixpoint)
             for c in init_cands:
-                if c not in init_included and c in init_mentions and (init_mentions[c] & em.used_globals_set):
+                trig = set(g for g in (init_mentions.get(c, set()) & em.used_globals_set) if not any(re.search(rx, g) for rx in spec.get('no_dynamic_init', [])))
+                if c not in init_included and trig:
                     init_included.append(c)
                     em.use_global(c)
     # externals: must be provided by rt (listed) or it is an error
@@ -1496,6 +1497,8 @@ def run(a):
     for n in em.used_globals:
         if mod.globals[n].external:
             out.append('#define IR2C_NEEDG_%s 1' % sanitize(n))
+    for k, v in spec.get('c_defines', {}).items():
+        out.append('#define %s %s' % (k, v))
     for ci in c_include_paths:
         out.append('#include "%s"' % ci)
     with open(a.o, 'w') as fh:
